@@ -316,16 +316,32 @@ class Evaluator:
 
 # ------------------------------------------------------------------ findings
 def load_findings(prop):
-    p = os.path.join(ROOT, "known_findings.json")
+    # VERIF_FINDINGS: another findings file (to try a proposed entry; the committed file is read-only for the checks)
+    p = os.environ.get("VERIF_FINDINGS") or os.path.join(ROOT, "known_findings.json")
     if not os.path.exists(p):
         return []
     return [f for f in json.load(open(p))["findings"] if f["property"] == prop and f["status"] == "known"]
 
 
 def match_finding(findings, cls):
+    """An entry suppresses exactly the oracle failure classes it names:
+       "class": "x"                                   the class x (the original form);
+       "classes": ["x", "y"]                          any of the listed classes;
+       "class_prefix": "p:", "raw_classes": [...]     a class p:<raw> (or p:<raw1>+<raw2>...) - the oracle reports the clause
+                                                      that failed inside the finding's territory - whose raw parts are ALL
+                                                      listed: a failure of any other kind on such a case stays a violation."""
+    if not isinstance(cls, str):
+        return None
     for f in findings:
-        if cls == f["class"]:
+        if "class" in f and cls == f["class"]:
             return f
+        if cls in f.get("classes", ()):
+            return f
+        pre = f.get("class_prefix")
+        if pre and cls.startswith(pre):
+            raws = cls[len(pre):].split("+")
+            if raws and all(r in f.get("raw_classes", ()) for r in raws):
+                return f
     return None
 
 
@@ -437,16 +453,18 @@ def run_check(prop, mod, tier, seed, tmp, replay, t_start, log):
 
     n_div = sum(1 for r in results if r["diverges"])
     fails = [r for r in results if r["oracle"] is not None]
-    divs = [r for r in results if r["diverges"] and r["oracle"] is None]
+    # a recorded finding excuses the oracle failure, not a disagreement with the model: the model mirrors the code as it is,
+    # defect included, so a case of a known finding that diverges is looked at like any other divergence
+    divs = [r for r in results if r["diverges"] and (r["oracle"] is None or match_finding(findings, r["oracle"]))]
 
     # --- oracle failures: genuine violations on the real code (unless known)
-    seen_cls = {}
+    seen_cls, known_cls = {}, {}
     for r in fails:
         seen_cls.setdefault(r["oracle"], []).append(r)
     for cls, rs in sorted(seen_cls.items()):
         f = match_finding(findings, cls)
         if f:
-            known_lines.append("KNOWN-FINDING: property=%s %s (%d cases this run)" % (prop, f["what"], len(rs)))
+            known_cls.setdefault(id(f), (f, {}))[1][cls] = len(rs)
             continue
         small = min(rs, key=lambda r: len(json.dumps(r["case"])))
         sc = shrink(ev, mod, small["case"], lambda x, cls=cls: x["oracle"] == cls)
@@ -457,6 +475,10 @@ def run_check(prop, mod, tier, seed, tmp, replay, t_start, log):
                             {"describe": mod.describe(rr["case"]) if hasattr(mod, "describe") else None,
                              "cases_in_class": len(rs)})
         violations.append((path, ""))
+
+    for f, per in known_cls.values():
+        detail = "" if list(per) == [f.get("class")] else " [%s]" % ", ".join("%s: %d" % kv for kv in sorted(per.items()))
+        known_lines.append("KNOWN-FINDING: property=%s %s (%d cases this run)%s" % (prop, f["what"], sum(per.values()), detail))
 
     # --- correspondence broken but no oracle failure among the diverging cases
     if divs and not violations:
